@@ -554,6 +554,13 @@ def _gen_dot_rank3(rng, D, P, tier):
 op('dot:rank3', _gen_dot_rank3, lambda a: algopy.dot(a[0], a[1]), lambda z: np.dot(z[0], z[1]), tags=('linalg',))
 
 
+# rank-3 dot with a COMPLEX intermediate next to a real operand (real input and output)
+op('dot:rank3-complex', lambda rng, D, P, t: [U(rand_coeffs(rng, (D, P, 4), -2, 2))],
+   lambda a: algopy.real(algopy.dot(algopy.fft.fft(a[0]).reshape((1, 2, 2)), a[0].reshape((2, 2)))), None, tags=('linalg',))
+op('dot:complex-rank3', lambda rng, D, P, t: [U(rand_coeffs(rng, (D, P, 4), -2, 2))],
+   lambda a: algopy.imag(algopy.dot(a[0].reshape((2, 2)), algopy.fft.fft(a[0]).reshape((2, 2, 1)))), None, tags=('linalg',))
+
+
 def _gen_outer(rng, D, P, tier):
     n = rng.randint(1, 3)
     m = rng.choice([n, n, rng.randint(1, 3)])
@@ -797,6 +804,10 @@ op('eigh1:mixed', _gen_eigh_mixed, lambda a: _eigh1_call(a[0]), None, tags=('lin
 op('eigh:mixed', _gen_eigh_mixed, lambda a: algopy.eigh(a[0]), None, tags=('linalg', 'factor', 'no-trunc'))
 op('symvec', lambda rng, D, P, t: [U(gen_square(rng, D, P, rng.randint(1, 3), 'spd'))],
    lambda a: algopy.symvec(a[0]), None, tags=('shape',))
+for _uplo in ('L', 'U'):
+    # the triangular storage conventions read one triangle only: general (non-symmetric) matrices
+    op('symvec:' + _uplo, lambda rng, D, P, t: [U(gen_square(rng, D, P, rng.randint(2, 3), 'general'))],
+       (lambda u: lambda a: algopy.symvec(a[0], u))(_uplo), None, tags=('shape',))
 op('vecsym', lambda rng, D, P, t: [U(rand_coeffs(rng, (D, P, rng.choice([1, 3, 6])), -2, 2))],
    lambda a: algopy.vecsym(a[0]), None, tags=('shape',))
 
